@@ -6,11 +6,12 @@ import (
 
 	"github.com/miekg/dns"
 	"github.com/miekg/dns/dnsutil"
+	. "verif/harness/common"
 )
 
 // C19: label helpers agree with the wire-format label sequence.
 
-func init() { props["C19"] = runC19 }
+func main() { Main(runC19) }
 
 // refShowLabel is the reference presentation of one wire label (RFC 1035 5.1 /
 // the library's documented escaping), written independently of the library.
@@ -79,7 +80,7 @@ func intsEq(a, b []int) bool {
 func showInts(a []int) string {
 	s := make([]string, len(a))
 	for i, v := range a {
-		s[i] = itoa(v)
+		s[i] = Itoa(v)
 	}
 	return strings.Join(s, ",")
 }
@@ -93,7 +94,7 @@ type c19in struct {
 func mkIn(ls [][]byte, s string, other string) c19in {
 	in := c19in{Name: s, Other: other}
 	for _, l := range ls {
-		in.Labels = append(in.Labels, hx(l))
+		in.Labels = append(in.Labels, Hx(l))
 	}
 	return in
 }
@@ -125,15 +126,15 @@ func c19Oracle(ls [][]byte) string {
 	for fi, f := range forms {
 		in := mkIn(ls, f, "")
 		bad := func(what, got, want string) {
-			viol("C19/"+what, what+": got "+got+" want "+want, in)
+			Viol("C19/"+what, what+": got "+got+" want "+want, in)
 		}
-		if got := protect(func() string { return itoa(dns.CountLabel(f)) }); got != itoa(len(ls)) {
-			bad("CountLabel", got, itoa(len(ls)))
+		if got := Protect(func() string { return Itoa(dns.CountLabel(f)) }); got != Itoa(len(ls)) {
+			bad("CountLabel", got, Itoa(len(ls)))
 		}
-		if got := protect(func() string { return showInts(dns.Split(f)) }); got != showInts(starts) {
+		if got := Protect(func() string { return showInts(dns.Split(f)) }); got != showInts(starts) {
 			bad("Split", got, showInts(starts))
 		}
-		if got := protect(func() string { return strings.Join(dns.SplitDomainName(f), "|") }); got != strings.Join(texts, "|") {
+		if got := Protect(func() string { return strings.Join(dns.SplitDomainName(f), "|") }); got != strings.Join(texts, "|") {
 			bad("SplitDomainName", got, strings.Join(texts, "|"))
 		}
 		// NextLabel visits exactly the label starts, then reports the end.
@@ -142,9 +143,9 @@ func c19Oracle(ls [][]byte) string {
 			if i+1 < len(starts) {
 				wantOff, wantEnd = starts[i+1], false
 			}
-			got := protect(func() string { o, e := dns.NextLabel(f, starts[i]); return itoa(o) + "," + btoa(e) })
-			if got != itoa(wantOff)+","+btoa(wantEnd) {
-				bad("NextLabel", got, itoa(wantOff)+","+btoa(wantEnd))
+			got := Protect(func() string { o, e := dns.NextLabel(f, starts[i]); return Itoa(o) + "," + Btoa(e) })
+			if got != Itoa(wantOff)+","+Btoa(wantEnd) {
+				bad("NextLabel", got, Itoa(wantOff)+","+Btoa(wantEnd))
 			}
 		}
 		// PrevLabel(n) is the start of the n-th label from the right.
@@ -154,13 +155,13 @@ func c19Oracle(ls [][]byte) string {
 				want := ""
 				switch {
 				case n == 0:
-					want = itoa(len(f)) + ",false"
+					want = Itoa(len(f)) + ",false"
 				case n <= k:
-					want = itoa(starts[k-n]) + ",false"
+					want = Itoa(starts[k-n]) + ",false"
 				default:
 					want = "0,true"
 				}
-				got := protect(func() string { o, e := dns.PrevLabel(f, n); return itoa(o) + "," + btoa(e) })
+				got := Protect(func() string { o, e := dns.PrevLabel(f, n); return Itoa(o) + "," + Btoa(e) })
 				if got != want {
 					bad("PrevLabel", got, want)
 				}
@@ -171,7 +172,7 @@ func c19Oracle(ls [][]byte) string {
 			bad("Fqdn", got, s)
 		}
 		if got := dns.IsFqdn(f); got != (fi == 0) {
-			bad("IsFqdn", btoa(got), btoa(fi == 0))
+			bad("IsFqdn", Btoa(got), Btoa(fi == 0))
 		}
 		if got, want := dns.CanonicalName(f), string(lowerASCII([]byte(s))); got != want {
 			bad("CanonicalName", got, want)
@@ -185,14 +186,14 @@ func c19PairOracle(a, b [][]byte, sa, sb string) {
 	c19pairs++
 	in := mkIn(a, sa, sb)
 	want := commonSuffix(a, b)
-	if got := protect(func() string { return itoa(dns.CompareDomainName(sa, sb)) }); got != itoa(want) {
-		viol("C19/CompareDomainName", "CompareDomainName: got "+got+" want "+itoa(want), in)
+	if got := Protect(func() string { return Itoa(dns.CompareDomainName(sa, sb)) }); got != Itoa(want) {
+		Viol("C19/CompareDomainName", "CompareDomainName: got "+got+" want "+Itoa(want), in)
 	}
 	// IsSubDomain(parent=a, child=b): all labels of a are a suffix of b
 	if len(a) > 0 {
 		wsub := want == len(a)
-		if got := protect(func() string { return btoa(dns.IsSubDomain(sa, sb)) }); got != btoa(wsub) {
-			viol("C19/IsSubDomain", "IsSubDomain: got "+got+" want "+btoa(wsub), in)
+		if got := Protect(func() string { return Btoa(dns.IsSubDomain(sa, sb)) }); got != Btoa(wsub) {
+			Viol("C19/IsSubDomain", "IsSubDomain: got "+got+" want "+Btoa(wsub), in)
 		}
 	}
 	// dnsutil: for a relative name r (a, without the trailing dot) under origin b:
@@ -200,16 +201,16 @@ func c19PairOracle(a, b [][]byte, sa, sb string) {
 	if len(a) > 0 && len(b) > 0 {
 		r := sa[:len(sa)-1]
 		for _, o := range []string{sb, sb[:len(sb)-1]} {
-			got := protect(func() string { return dnsutil.TrimDomainName(dnsutil.AddOrigin(r, o), o) })
+			got := Protect(func() string { return dnsutil.TrimDomainName(dnsutil.AddOrigin(r, o), o) })
 			if got != r {
-				viol("C19/TrimAddInverse", "TrimDomainName(AddOrigin(r,o),o): got "+got+" want "+r, mkIn(a, r, o))
+				Viol("C19/TrimAddInverse", "TrimDomainName(AddOrigin(r,o),o): got "+got+" want "+r, mkIn(a, r, o))
 			}
 		}
 		// and AddOrigin(TrimDomainName(s, o), o) == s for s = r.o
 		full := r + "." + sb
-		got := protect(func() string { return dnsutil.AddOrigin(dnsutil.TrimDomainName(full, sb), sb) })
+		got := Protect(func() string { return dnsutil.AddOrigin(dnsutil.TrimDomainName(full, sb), sb) })
 		if got != full {
-			viol("C19/AddTrimInverse", "AddOrigin(TrimDomainName(s,o),o): got "+got+" want "+full, mkIn(a, full, sb))
+			Viol("C19/AddTrimInverse", "AddOrigin(TrimDomainName(s,o),o): got "+got+" want "+full, mkIn(a, full, sb))
 		}
 	}
 }
@@ -217,35 +218,35 @@ func c19PairOracle(a, b [][]byte, sa, sb string) {
 // uni renders every single-name observable of s for the model comparison.
 func c19Uni(s string) string {
 	var parts []string
-	parts = append(parts, protect(func() string { return itoa(dns.CountLabel(s)) }))
-	parts = append(parts, protect(func() string { return showInts(dns.Split(s)) }))
-	parts = append(parts, protect(func() string {
+	parts = append(parts, Protect(func() string { return Itoa(dns.CountLabel(s)) }))
+	parts = append(parts, Protect(func() string { return showInts(dns.Split(s)) }))
+	parts = append(parts, Protect(func() string {
 		var h []string
 		for _, l := range dns.SplitDomainName(s) {
-			h = append(h, hs(l))
+			h = append(h, Hs(l))
 		}
 		return strings.Join(h, "|")
 	}))
 	var nl []string
 	for off := 0; off <= len(s)+1; off++ {
-		nl = append(nl, protect(func() string { o, e := dns.NextLabel(s, off); return itoa(o) + btoa(e)[:1] }))
+		nl = append(nl, Protect(func() string { o, e := dns.NextLabel(s, off); return Itoa(o) + Btoa(e)[:1] }))
 	}
 	parts = append(parts, strings.Join(nl, ","))
 	var pl []string
 	for n := 0; n <= 4; n++ {
-		pl = append(pl, protect(func() string { o, e := dns.PrevLabel(s, n); return itoa(o) + btoa(e)[:1] }))
+		pl = append(pl, Protect(func() string { o, e := dns.PrevLabel(s, n); return Itoa(o) + Btoa(e)[:1] }))
 	}
 	parts = append(parts, strings.Join(pl, ","))
-	parts = append(parts, btoa(dns.IsFqdn(s)), hs(dns.Fqdn(s)), hs(dns.CanonicalName(s)))
+	parts = append(parts, Btoa(dns.IsFqdn(s)), Hs(dns.Fqdn(s)), Hs(dns.CanonicalName(s)))
 	return strings.Join(parts, ";")
 }
 
 func c19Pair(a, b string) string {
 	var parts []string
-	parts = append(parts, protect(func() string { return itoa(dns.CompareDomainName(a, b)) }))
-	parts = append(parts, protect(func() string { return btoa(dns.IsSubDomain(a, b)) }))
-	parts = append(parts, protect(func() string { return hs(dnsutil.AddOrigin(a, b)) }))
-	parts = append(parts, protect(func() string { return hs(dnsutil.TrimDomainName(a, b)) }))
+	parts = append(parts, Protect(func() string { return Itoa(dns.CompareDomainName(a, b)) }))
+	parts = append(parts, Protect(func() string { return Btoa(dns.IsSubDomain(a, b)) }))
+	parts = append(parts, Protect(func() string { return Hs(dnsutil.AddOrigin(a, b)) }))
+	parts = append(parts, Protect(func() string { return Hs(dnsutil.TrimDomainName(a, b)) }))
 	return strings.Join(parts, ";")
 }
 
@@ -289,22 +290,22 @@ func enumStrings(alpha string, maxLen int, f func(s string)) {
 	gen(nil)
 }
 
-func randLabels(r *rng, alpha []byte, maxLabels, maxLen int) [][]byte {
-	n := r.intn(maxLabels + 1)
+func randLabels(r *Rng, alpha []byte, maxLabels, maxLen int) [][]byte {
+	n := r.Intn(maxLabels + 1)
 	var ls [][]byte
 	total := 1
 	for i := 0; i < n; i++ {
-		l := 1 + r.intn(maxLen)
+		l := 1 + r.Intn(maxLen)
 		if total+l+1 > 255 {
 			break
 		}
 		total += l + 1
 		b := make([]byte, l)
 		for j := range b {
-			if r.intn(3) == 0 {
-				b[j] = byte(r.next())
+			if r.Intn(3) == 0 {
+				b[j] = byte(r.Next())
 			} else {
-				b[j] = alpha[r.intn(len(alpha))]
+				b[j] = alpha[r.Intn(len(alpha))]
 			}
 		}
 		ls = append(ls, b)
@@ -312,7 +313,7 @@ func randLabels(r *rng, alpha []byte, maxLabels, maxLen int) [][]byte {
 	return ls
 }
 
-func runC19(r *rng, tier string, n int) {
+func runC19(r *Rng, tier string, n int) {
 	octAlpha := []byte{'a', 'A', '0', '.', '\\', 0x00}
 	maxOct, maxStr, nrand, pairOct := 5, 4, 300, 3
 	if tier == "thorough" {
@@ -341,11 +342,11 @@ func runC19(r *rng, tier string, n int) {
 		if tot <= pairOct {
 			small = append(small, nm{ls, s})
 		}
-		if tot <= 2 || r.intn(150) == 0 {
-			emit("uni", []string{hs(s)}, c19Uni(s))
+		if tot <= 2 || r.Intn(150) == 0 {
+			Emit("uni", []string{Hs(s)}, c19Uni(s))
 			if len(ls) > 0 {
 				t := s[:len(s)-1]
-				emit("uni", []string{hs(t)}, c19Uni(t))
+				Emit("uni", []string{Hs(t)}, c19Uni(t))
 			}
 		}
 	})
@@ -355,10 +356,10 @@ func runC19(r *rng, tier string, n int) {
 		for _, b := range small {
 			c19PairOracle(a.ls, b.ls, a.s, b.s)
 			pc++
-			if r.intn(len(small)*len(small)/400+1) == 0 {
-				emit("pair", []string{hs(a.s), hs(b.s)}, c19Pair(a.s, b.s))
+			if r.Intn(len(small)*len(small)/400+1) == 0 {
+				Emit("pair", []string{Hs(a.s), Hs(b.s)}, c19Pair(a.s, b.s))
 				if len(a.ls) > 0 {
-					emit("pair", []string{hs(a.s[:len(a.s)-1]), hs(b.s)}, c19Pair(a.s[:len(a.s)-1], b.s))
+					Emit("pair", []string{Hs(a.s[:len(a.s)-1]), Hs(b.s)}, c19Pair(a.s[:len(a.s)-1], b.s))
 				}
 			}
 		}
@@ -372,17 +373,17 @@ func runC19(r *rng, tier string, n int) {
 		}
 		sa := c19Oracle(a)
 		var b [][]byte
-		switch r.intn(4) {
+		switch r.Intn(4) {
 		case 0:
 			b = randLabels(r, full, 6, 8)
 		case 1: // share a suffix, case-flipped
-			k := r.intn(len(a) + 1)
+			k := r.Intn(len(a) + 1)
 			b = append(randLabels(r, full, 3, 5), a[len(a)-k:]...)
 			b2 := make([][]byte, len(b))
 			for i, l := range b {
 				l2 := append([]byte{}, l...)
 				for j := range l2 {
-					if r.intn(2) == 0 && ((l2[j] >= 'a' && l2[j] <= 'z') || (l2[j] >= 'A' && l2[j] <= 'Z')) {
+					if r.Intn(2) == 0 && ((l2[j] >= 'a' && l2[j] <= 'z') || (l2[j] >= 'A' && l2[j] <= 'Z')) {
 						l2[j] ^= 0x20
 					}
 				}
@@ -390,7 +391,7 @@ func runC19(r *rng, tier string, n int) {
 			}
 			b = b2
 		case 2: // b is an ancestor of a
-			k := r.intn(len(a) + 1)
+			k := r.Intn(len(a) + 1)
 			b = a[len(a)-k:]
 		default: // nearly equal: one octet differs
 			b = make([][]byte, len(a))
@@ -398,8 +399,8 @@ func runC19(r *rng, tier string, n int) {
 				b[i] = append([]byte{}, l...)
 			}
 			if len(b) > 0 {
-				i := r.intn(len(b))
-				b[i][r.intn(len(b[i]))] ^= byte(1 << r.intn(8))
+				i := r.Intn(len(b))
+				b[i][r.Intn(len(b[i]))] ^= byte(1 << r.Intn(8))
 			}
 		}
 		if len(wireOf(b)) > 255 {
@@ -412,9 +413,9 @@ func runC19(r *rng, tier string, n int) {
 		c19PairOracle(a, b, sa, sb)
 		c19PairOracle(b, a, sb, sa)
 		if i < 100 || i%100 == 0 {
-			emit("uni", []string{hs(sa)}, c19Uni(sa))
-			emit("pair", []string{hs(sa), hs(sb)}, c19Pair(sa, sb))
-			emit("pair", []string{hs(sb), hs(sa)}, c19Pair(sb, sa))
+			Emit("uni", []string{Hs(sa)}, c19Uni(sa))
+			Emit("pair", []string{Hs(sa), Hs(sb)}, c19Pair(sa, sb))
+			Emit("pair", []string{Hs(sb), Hs(sa)}, c19Pair(sb, sa))
 		}
 	}
 	// (4) model fidelity beyond valid names: every string over the presentation alphabet
@@ -422,15 +423,15 @@ func runC19(r *rng, tier string, n int) {
 	var strs []string
 	enumStrings("aA0.\\", maxStr, func(s string) {
 		sc++
-		emit("uni", []string{hs(s)}, c19Uni(s))
+		Emit("uni", []string{Hs(s)}, c19Uni(s))
 		if len(s) <= 2 {
 			strs = append(strs, s)
 		}
 	})
 	for _, a := range strs {
 		for _, b := range strs {
-			emit("pair", []string{hs(a), hs(b)}, c19Pair(a, b))
+			Emit("pair", []string{Hs(a), Hs(b)}, c19Pair(a, b))
 		}
 	}
-	stat(map[string]int{"names_checked": c19checked, "pairs_checked": c19pairs, "enumerated_label_lists": cnt, "enumerated_strings": sc, "max_octets": maxOct})
+	Stat(map[string]int{"names_checked": c19checked, "pairs_checked": c19pairs, "enumerated_label_lists": cnt, "enumerated_strings": sc, "max_octets": maxOct})
 }
